@@ -7,7 +7,7 @@ QUICK_ORG = ['rgb8_img', 'rgb8p_img', 'rgb16_img', 'rgb565_img', 'bgray1_img', '
 XFS = ['xf_flipud', 'xf_fliplr', 'xf_transposed', 'xf_rot90cw', 'xf_rot90ccw', 'xf_rot180', 'xf_subimage', 'xf_subsampled']
 PATHS = {0: 'ctor', 1: 'ctor_fill', 2: 'copy', 3: 'assign', 4: 'recreate', 5: 'recreate_fill', 6: 'move'}
 DIMS_Q = [(3, 2), (2, 3)]
-DIMS_T = [(0, 0), (0, 2), (2, 0), (1, 1), (3, 2), (2, 3), (1, 3), (3, 1), (3, 3), (4, 2)]
+DIMS_T = [(0, 0), (0, 2), (2, 0), (1, 1), (3, 2), (2, 3), (1, 3), (4, 2)]
 ALIGN_Q = [0, 4, 32]
 ALIGN_T = [0, 1, 2, 4, 8, 16, 32]
 def queries(tier, seed):
@@ -22,7 +22,7 @@ def queries(tier, seed):
                     w0, h0, al0 = (h + 1) % 4, (w + 2) % 4, ALIGN_T[(ALIGN_T.index(al) + 3) % 7]
                     # every accessor on a symbolic in-range pixel + fill_pixels over the whole image; the allocator's base address
                     # residue (mod 64) is a concrete shape parameter: quick one per alignment, thorough a sweep
-                    ress = [{0: 5, 4: 3, 32: 17}.get(al, 1)] if tt == 'quick' or tier == 'quick' else [0, 1, 7, 31, 63 - (seed % 8)]
+                    ress = [{0: 5, 4: 3, 32: 17}.get(al, 1)] if (tt == 'quick' or tier == 'quick' or (w, h) not in ((3, 2), (1, 3), (0, 2)) or o not in QUICK_ORG) else [0, 7, 63 - (seed % 8)]
                     if o.startswith('b') and p not in (0, 4, 5) and tt == 'quick': tt = 'thorough'   # bit-aligned: heavier queries
                     for res in ress:
                         qs.append(Q('acc/%s/%s/%dx%d_a%d_r%d' % (o, pn, w, h, al, res), 'C01/img.cpp', 'h_img', defs=dict(IMG=o, PATH=p, XF1='xf_id', ALGOS=1),
